@@ -798,6 +798,266 @@ def phys_streams(ctx, add):
                 add('symseq %d %d %d' % (n, i, j), str(V.sym_index_to_seq(n, i, j)), ('symseq', n, i, j)); cnt()
 
 
+# ----------------------------------------------------------------------------- indexing with negative indices / lists / slices
+def index_stream(ctx, add, n):
+    """`e[...]` with negative scalars, index lists (negative entries included) and slices (negative steps, open / out-of-range
+    bounds) on vector and matrix expressions.  ORACLE: numpy indexing on the object array of the entries (the guide: "indexed and
+    sliced using the standard Python [] operator", shapes "just like a numpy array"); MODEL: `getitemV/getitemM` (driver `getitem`,
+    slices expanded by Python's own `slice.indices`)."""
+    from pyiga import vform as V
+    rng = ctx.rng
+    vf = V.VForm(3)
+    A = vf.parameter('A', shape=(2, 3)); Bm = vf.parameter('B', shape=(3, 3)); x = vf.parameter('x', shape=(3,)); y = vf.input('y', shape=(4,))
+    pool = [A, Bm, x, y, V.dot(A, x), V.dot(Bm, Bm), A + A, V.outer(x, x), Bm.T]
+    bad = {}
+    flagged = ctx.extra.setdefault('_index_flagged', set())
+
+    def rint(k):
+        return int(rng.integers(-k - 1, k + 1))
+
+    def rspec(k):
+        c = int(rng.integers(0, 6))
+        if c <= 1:
+            return rint(k)
+        if c == 2:
+            return [rint(k) for _ in range(int(rng.integers(1, 4)))]
+        st = [None, 1, 2, -1, -2][int(rng.integers(0, 5))]
+        lo = [None, rint(k), rint(k + 2)][int(rng.integers(0, 3))]
+        hi = [None, rint(k), rint(k + 2)][int(rng.integers(0, 3))]
+        return slice(lo, hi, st)
+
+    def axis_tok(sp, k):
+        if isinstance(sp, slice):
+            return 'n ' + plist(range(*sp.indices(k)))
+        if isinstance(sp, list):
+            return 'n ' + plist(sp)
+        return '1 %d' % sp
+
+    def ser_res(r):
+        if isinstance(r, str):
+            return r
+        return L.ser(r)
+    for it in range(n):
+        e = pool[int(rng.integers(0, len(pool)))]
+        if e.is_vector():
+            k = e.shape[0]
+            spec = rspec(k)
+            key = spec
+            toks = axis_tok(spec, k)
+            arr = np.empty((k,), dtype=object)
+            for i in range(k):
+                arr[i] = L.ser(e[i])
+        else:
+            m_, n_ = e.shape
+            s1, s2 = rspec(m_), rspec(n_)
+            if isinstance(s1, list) and isinstance(s2, list):
+                s2 = rint(n_)              # numpy pairs two index lists, the DSL takes their product: not compared
+            key = (s1, s2)
+            toks = axis_tok(s1, m_) + ' ' + axis_tok(s2, n_)
+            arr = np.empty((m_, n_), dtype=object)
+            for i in range(m_):
+                for j in range(n_):
+                    arr[i, j] = L.ser(e[i, j])
+        # numpy semantics
+        try:
+            want = arr[key]
+            if isinstance(want, np.ndarray) and want.ndim == 2 and want.size == 0:
+                ctx.count('index:skipped-empty-matrix-result')
+                continue
+            want = want.tolist() if isinstance(want, np.ndarray) else want
+        except IndexError:
+            want = 'err-IndexError'
+        got = guarded(lambda: e[key])
+
+        def observe():
+            if isinstance(got, str):
+                return got
+            if got.is_scalar():
+                return L.ser(got)
+            if got.is_vector():
+                return [L.ser(got[i]) for i in range(got.shape[0])]
+            return [[L.ser(got[i, j]) for j in range(got.shape[1])] for i in range(got.shape[0])]
+        obs = guarded(observe)
+        add('getitem %s %s' % (L.ser(e), toks), guarded(lambda: ser_res(got)), ('getitem', repr(key)))
+        ctx.count('index:requests')
+        if obs != want:
+            flagged.add('getitem %s %s' % (L.ser(e), toks))
+            neg = 'list' if any(isinstance(sp, list) for sp in (key if isinstance(key, tuple) else (key,))) else 'slice'
+            kk = 'index:negative-entry-in-index-list' if neg == 'list' else 'index:slice-negative-step-or-bounds'
+            bad[kk] = bad.get(kk, 0) + 1
+            if bad[kk] <= 2:
+                ctx.violation(kk, 'indexing an expression gives entries other than numpy-style indexing of its entries',
+                              {'expression': L.ser(e)[:300], 'shape': list(e.shape), 'index': repr(key), 'observed': str(obs)[:400], 'numpy': str(want)[:400]}, True)
+    ctx.obligation('indexing with negative indices / lists / slices equals numpy-style indexing of the entries (%d cases)' % n,
+                   not [k for k in bad if k not in ctx.known_keys()], ', '.join('%s x%d' % kv for kv in bad.items()))
+
+
+# ----------------------------------------------------------------------------- expression-sharing histories
+SHARE_SUBS = ['coef', 'let', 'fv', 'du', 'uv', 'gu', 'const', 'geo']
+
+
+def sharing_build(recipe, shared, const_obj=None):
+    """one VForm built from `recipe`; shared=True: every subexpression is built once and the same object is reused in every
+    term / add(); shared=False: the expression AS WRITTEN, every use built afresh.  Returns (vf, terms, held-subexpressions)."""
+    from pyiga import vform as V
+    dim, arity, nc = recipe['dim'], recipe['arity'], recipe['nc']
+    vf = V.VForm(dim, arity=arity)
+    comps = (nc, nc) if nc else (None, None)
+    bfs = vf.basisfuns(components=comps[:2])
+    bfs = (bfs,) if arity == 1 else tuple(bfs)
+    u, v = bfs[0], bfs[-1]
+    f = vf.input('f'); fv = vf.input('fv', shape=(nc or dim,)); c = vf.parameter('c')
+    used = set(k for (a, b, _) in recipe['terms'] for k in (a, b) if k is not None)
+    # (an unused let-variable makes hash() raise KeyError: declare it only if a term refers to it)
+    B = vf.let('B', f * 2.0 + c) if any(recipe['subs'][k] == 'let' for k in used) else None
+
+    def sc(b):
+        return b if b.is_scalar() else b[0]
+
+    def make(kind):
+        if kind == 'coef': return f * f + c
+        if kind == 'let': return B * f
+        if kind == 'fv': return V.inner(fv, v) if not v.is_scalar() else f * v
+        if kind == 'du': return V.div(u, parametric=True) if (not u.is_scalar() and len(u) == dim) else V.Dx(sc(u), 0, parametric=True)
+        if kind == 'uv': return V.inner(u, v) if (not u.is_scalar() and not v.is_scalar()) else sc(u) * sc(v)
+        if kind == 'gu': return V.inner(V.grad(sc(u), parametric=True), V.grad(sc(v), parametric=True))
+        if kind == 'const': return const_obj if const_obj is not None else V.as_expr(2.0) * 3.0 + 1.0
+        return vf.Geo[0] * vf.Geo[dim - 1]
+    cache = {}
+
+    def sub(k):
+        if shared:
+            if k not in cache:
+                cache[k] = make(recipe['subs'][k])
+            return cache[k]
+        return make(recipe['subs'][k])
+    terms = []
+    for (a, b, cst) in recipe['terms']:
+        e = sub(a)
+        if b is not None:
+            e = e * sub(b)
+        if cst is not None:
+            e = cst * e
+        terms.append(e * V.dx)
+    return vf, terms, cache
+
+
+def sharing_case(recipe):
+    """-> (requests [(req, expected)], problems [(key, detail)]) for one expression-sharing history"""
+    from pyiga import vform as V
+    reqs, problems = [], []
+    # the expressions as written (no sharing): serialised before anything is added
+    vfF, termsF, _ = sharing_build(recipe, shared=False)
+    written = [L.ser(t) for t in termsF]
+    for t in termsF:
+        vfF.add(t)
+    # the same history with shared subexpression objects
+    vfS, termsS, held = sharing_build(recipe, shared=True)
+    objs = {('sub%d:%s' % (k, recipe['subs'][k])): o for k, o in held.items()}
+    objs.update({'term%d' % k: t for k, t in enumerate(termsS)})
+    before = {n: (L.ser(o), V.exprhash(o)) for n, o in objs.items()}
+
+    def probe(when):
+        for n, o in objs.items():
+            now = (L.ser(o), V.exprhash(o))
+            if now != before[n]:
+                problems.append(('sharing:user-expression-modified', {'recipe': recipe, 'object': n, 'when': when,
+                                                                      'before': before[n][0][:600], 'after': now[0][:600]}))
+                before[n] = now
+    for k, t in enumerate(termsS):
+        vfS.add(t)
+        probe('after add() number %d' % k)
+    for k in range(len(termsS)):
+        got = L.ser(vfS.exprs[k])
+        if vfS.vec:
+            reqs.append(('vec %s %s' % (plist(vfS.basis_funs, L.ser_bf), written[k]), got, ('share-vec', recipe, k)))
+        if got != L.ser(vfF.exprs[k]):
+            problems.append(('sharing:add-differs-from-as-written', {'recipe': recipe, 'add_number': k, 'as_written': written[k][:600],
+                                                                     'stored_with_sharing': got[:600], 'stored_without_sharing': L.ser(vfF.exprs[k])[:600]}))
+    try:
+        if vfS.hash() != vfF.hash():
+            problems.append(('sharing:hash-differs-from-as-written', {'recipe': recipe}))
+    except Exception as ex:
+        problems.append(('sharing:hash-raised', {'recipe': recipe, 'error': type(ex).__name__}))
+    # value: meaning of the form as written  vs  finalized program of the shared form
+    try:
+        w = L.World(vfF, np.random.default_rng(recipe['seed']))
+        want = [L.flat(w.ev(e)) for e in vfF.exprs]
+        vfS.finalize()
+        got = [L.flat(x) for x in w.run_program(vfS)]
+        if want != got:
+            problems.append(('sharing:value-changed', {'recipe': recipe, 'expected': [[str(x) for x in r] for r in want][:3],
+                                                       'observed': [[str(x) for x in r] for r in got][:3]}))
+        if vfS.vec:
+            probe('after finalize()')        # vector forms store copies: the user's objects must survive finalize() too
+    except (L.Unsupported, ZeroDivisionError):
+        pass
+    except Exception as ex:
+        problems.append(('sharing:finalize-raised', {'recipe': recipe, 'error': '%s: %s' % (type(ex).__name__, str(ex)[:200])}))
+    # a second form, built after the first one was finalized, reusing the bfun-free constant subexpression object
+    cst = [o for k, o in held.items() if recipe['subs'][k] == 'const']
+    if cst:
+        r2 = dict(recipe, terms=[(recipe['subs'].index('const'), recipe['terms'][0][0], None)] + recipe['terms'][:1])
+        try:
+            vf2F, t2F, _ = sharing_build(r2, shared=False)
+            vf2S, t2S, _ = sharing_build(r2, shared=True, const_obj=cst[0])
+            for k, t in enumerate(t2S):
+                vf2S.add(t); vf2F.add(t2F[k])
+            # finalize() of the first form rewrote its own trees in place (by design), so the reused constant object may have
+            # been folded; what must hold is the value of the second form
+            w2 = L.World(vf2F, np.random.default_rng(recipe['seed'] + 1))
+            want2 = [L.flat(w2.ev(e)) for e in vf2F.exprs]
+            vf2S.finalize()
+            got2 = [L.flat(x) for x in w2.run_program(vf2S)]
+            if want2 != got2:
+                problems.append(('sharing:value-changed', {'recipe': r2, 'second_form': True, 'expected': [[str(x) for x in r] for r in want2][:3],
+                                                           'observed': [[str(x) for x in r] for r in got2][:3]}))
+        except (L.Unsupported, ZeroDivisionError):
+            pass
+        except Exception as ex:
+            problems.append(('sharing:second-form-raised', {'recipe': r2, 'error': type(ex).__name__}))
+    return reqs, problems
+
+
+def sharing_stream(ctx, add, n):
+    """subexpressions (with vector basis functions, let variables, derivatives, constants) built once and reused across several
+    add() calls / a second form; every stored expression is compared with the expression as written and with the model
+    (`vec`), the finalized form's value with the meaning as written; user-held objects must be unchanged by add()/finalize()"""
+    rng = ctx.rng
+    seen = {}
+    for it in range(n):
+        nsub = 3
+        subs = [SHARE_SUBS[int(i)] for i in rng.integers(0, len(SHARE_SUBS), size=nsub)]
+        if it % 4 == 0:
+            subs[0] = 'fv'                      # a subexpression containing the (vector) test function, every few cases
+        nterms = int(rng.integers(2, 5))
+        terms = []
+        for t in range(nterms):
+            a = int(rng.integers(0, nsub)) if t else 0
+            b = int(rng.integers(0, nsub)) if rng.integers(0, 2) else None
+            cst = [None, 2.0, 0.5, -1.0][int(rng.integers(0, 4))]
+            terms.append((a, b, cst))
+        recipe = {'dim': [1, 2, 2, 3][int(rng.integers(0, 4))], 'arity': 1 + int(rng.integers(0, 2)),
+                  'nc': [None, 2, 3, 2][int(rng.integers(0, 4))], 'subs': subs, 'terms': terms, 'seed': int(rng.integers(0, 2 ** 31))}
+        try:
+            reqs, problems = sharing_case(recipe)
+        except Exception as ex:
+            ctx.count('sharing-generator-error:' + type(ex).__name__)
+            continue
+        ctx.count('sharing:histories'); ctx.count('sharing:add-calls', len(terms))
+        if recipe['nc']:
+            ctx.count('sharing:vector-valued')
+        for (r, e, m) in reqs:
+            add(r, e, m)
+        for (key, detail) in problems:
+            seen[key] = seen.get(key, 0) + 1
+            if seen[key] <= 2:
+                detail = dict(detail, replay='harness.c06.sharing_case(recipe)')
+                ctx.violation(key, 'expression-sharing history: ' + key.split(':', 1)[1], detail, True)
+    ctx.obligation('expression-sharing histories: %d histories, stored expressions / hash / values equal the form as written, user objects unchanged'
+                   % ctx.counters.get('sharing:histories', 0), not seen, ', '.join('%s x%d' % kv for kv in seen.items()))
+
+
 # ----------------------------------------------------------------------------- model-free search
 def dual_eval(w, e, k, par, store=None):
     """(value, derivative wrt direction k [parametric or physical]) by dual numbers over Fractions"""
@@ -1043,6 +1303,8 @@ def run(ctx):
     synth_stream(ctx, add, nsynth)
     phys1_stream(ctx, add)
     phys_streams(ctx, add)
+    sharing_stream(ctx, add, 120 if ctx.tier == 'quick' else 1500)
+    index_stream(ctx, add, 400 if ctx.tier == 'quick' else 5000)
     ctx.extra['t_synth'] = round(_t.time() - t0, 1); t0 = _t.time()
 
     import multiprocessing as mp
@@ -1128,6 +1390,9 @@ def run(ctx):
                 if ok_round:
                     ctx.count('skipped:rounded-constant-hit-a-folding-rule(value preserved)')
                     continue
+        if m[0] == 'getitem' and r in ctx.extra.get('_index_flagged', ()):
+            ctx.count('getitem-disagreements-already-reported-by-the-numpy-oracle')
+            continue
         if m[0] == 'keys':
             att = attribute_keys(m[1], e, g)
             if att is not None:
@@ -1151,6 +1416,7 @@ def run(ctx):
                       desc, found is not None)
     ctx.obligation('correspondence stream pass: %d requests, model == implementation' % len(req), ndis == 0, '%d disagreements' % ndis)
     ctx.extra['requests'] = len(req)
+    ctx.extra.pop('_index_flagged', None)
 
     # model-free spot checks of the synthetic passes (supports the search; not the proof)
     nor = 150 if ctx.tier == 'quick' else 2000
